@@ -1270,7 +1270,10 @@ def decompile_script(script: bytes, indent: int = 0) -> list[str]:
                 # ops that have tape arguments of form [size 0-255] [val]
                 size = tape.read(1)[0]
                 val = tape.read(size)
-                add_line(f'{op_name} d{bytes_to_int(val)}')
+                if size > 0 and int_to_bytes(bytes_to_int(val)) == val:
+                    add_line(f'{op_name} d{bytes_to_int(val)}')
+                else:
+                    add_line(f'{op_name} x{val.hex()}')
             case 'OP_WRITE_CACHE':
                 # op has tape arguments of form [size 0-255] [val] [count 0-255]
                 size = tape.read(1)[0]
